@@ -14,7 +14,7 @@ type Gen struct {
 
 func (g *Gen) NewAddr() int { g.Addr++; return g.Addr }
 
-var SmallStrings = []string{"a", "b", "bob", "", "x y", "Ab"}
+var SmallStrings = []string{"a", "b", "bob", "", "x y", "Ab", "1", "a2"}
 
 // scalar makes a value of Go type ty with a small payload.
 func (g *Gen) Scalar(ty string) GV {
